@@ -9,6 +9,7 @@ import (
 	"errors"
 	"io"
 
+	spb "google.golang.org/genproto/googleapis/rpc/status"
 	"google.golang.org/grpc/stats"
 
 	"google.golang.org/protobuf/proto"
@@ -257,9 +258,15 @@ func (m *fakeMsg) Get(fd protoreflect.FieldDescriptor) protoreflect.Value {
 	}
 	return protoreflect.Value{}
 }
+
+type fakeMap struct{ protoreflect.Map }
+
 func (m *fakeMsg) Mutable(fd protoreflect.FieldDescriptor) protoreflect.Value {
 	f := fd.(*fakeFD)
 	n := f.name
+	if f.isMap {
+		return protoreflect.ValueOfMap(&fakeMap{})
+	}
 	if f.list {
 		l, ok := m.lists[n]
 		if !ok {
@@ -292,6 +299,8 @@ type fakeCodec struct {
 	unmarshal [][]byte // every payload handed to Unmarshal, in order
 	marshals  int
 	failNext  bool
+	statuses  []*spb.Status     // google.rpc.Status messages handed to Marshal (error bodies)
+	bodySets  map[string]string // fields the decoded body sets (models body content)
 }
 
 var errVfCodec = errors.New("verif: injected codec failure")
@@ -302,6 +311,10 @@ func (c *fakeCodec) Marshal(v interface{}) ([]byte, error) {
 }
 func (c *fakeCodec) MarshalAppend(b []byte, v interface{}) ([]byte, error) {
 	c.marshals++
+	if st, ok := v.(*spb.Status); ok {
+		c.statuses = append(c.statuses, st)
+		return append(b, "STATUS"...), nil
+	}
 	m, ok := v.(*fakeMsg)
 	if !ok {
 		return nil, errVfCodec
@@ -318,6 +331,9 @@ func (c *fakeCodec) Unmarshal(data []byte, v interface{}) error {
 	if m, ok := v.(*fakeMsg); ok {
 		m.raw = cp
 		m.rawSet++
+		for k, val := range c.bodySets {
+			m.vals[k] = protoreflect.ValueOfString(val)
+		}
 	}
 	return nil
 }
@@ -392,4 +408,21 @@ func (s *fakeStats) HandleRPC(ctx context.Context, st stats.RPCStats) {
 		s.endErr = e.Error
 		s.ends++
 	}
+}
+
+// schemaParams: every field shape larking's URL-parameter code distinguishes.
+func schemaParams() *fakeMD {
+	sub := newFakeMD("vf.PSub", strField("c"))
+	en := &fakeED{full: "vf.Color", values: []string{"ZERO", "ONE", "TWO"}}
+	return newFakeMD("vf.PReq",
+		strField("a"),
+		&fakeFD{name: "n", kind: protoreflect.BytesKind},
+		&fakeFD{name: "e", kind: protoreflect.EnumKind, enum: en},
+		&fakeFD{name: "list", kind: protoreflect.StringKind, list: true},
+		&fakeFD{name: "sub", kind: protoreflect.MessageKind, msg: sub},
+		&fakeFD{name: "subs", kind: protoreflect.MessageKind, msg: sub, list: true},
+		&fakeFD{name: "mp", kind: protoreflect.MessageKind, msg: sub, isMap: true},
+		&fakeFD{name: "long_name", json: "longName", kind: protoreflect.StringKind},
+		&fakeFD{name: "i", kind: protoreflect.Int32Kind},
+	)
 }
